@@ -317,7 +317,8 @@ def compare(prim, results, fields_by_prop, monitors_wanted):
                 for p, fields in fields_by_prop.items():
                     if p in found:
                         continue
-                    diff = [f for f in fields if di.get(f) != dm.get(f)]
+                    diff = [f for f in fields if di.get(f) != dm.get(f)
+                            and not (f == "at" and op.startswith("blk "))]   # blocking forms: not listed
                     if diff:
                         found[p] = {"kind": "correspondence", "gen": g, "history": [new_line] + list(path),
                                     "impl": rest, "model": b,
